@@ -140,6 +140,9 @@ func (i *IPv4) UnmarshalBinary(data []byte) error {
 	copy(i.NWDst, data[n:n+4])
 	n += 4
 
+	if i.IHL < 5 || len(data) < int(i.IHL)*4 {
+		return errors.New("The IPv4 header length field does not fit the packet.")
+	}
 	err := i.Options.UnmarshalBinary(data[n:int(i.IHL*4)])
 	if err != nil {
 		return err
